@@ -188,12 +188,22 @@ func callEntry(ctx context.Context, sc *Scenario, target netip.AddrPort) (*resul
 	return nil, fmt.Errorf("harness: unknown variant %q", sc.Variant)
 }
 
+// countFds counts the open socket descriptors of the process. Only sockets: everything the code under test opens
+// is a socket (port-holding UDP sockets, the SACK connection, raw and packet sockets), while the Go runtime opens
+// and closes files of its own at any moment (since Go 1.25 it re-reads the cgroup CPU limits and
+// /sys/devices/system/cpu/online periodically), which showed as a 8 -> 9 "leak" twice in 10 thorough runs.
 func countFds() int {
 	d, err := os.ReadDir("/proc/self/fd")
 	if err != nil {
 		return -1
 	}
-	return len(d)
+	n := 0
+	for _, e := range d {
+		if l, err := os.Readlink("/proc/self/fd/" + e.Name()); err == nil && strings.HasPrefix(l, "socket:") {
+			n++
+		}
+	}
+	return n
 }
 
 // listFds describes the open descriptors (for the message of a leak report).
